@@ -501,7 +501,8 @@ def resolvesTo (s : St) (fuel : Nat) (r : Str) (v : Int) : Bool :=
 def intText (r : Str) : Bool := r.isEmpty || hasCompPrefix r
 
 def cellOK (s : St) (c : Nat) : Bool :=
-  if (cellOf h c).val < 0 then s.refs[c]! == origRef h c      -- never resolved by the loader: must be left exactly as it was
+  -- never resolved by the loader: must be left exactly as it was, and must not point outside the document
+  if (cellOf h c).val < 0 then s.refs[c]! == origRef h c && intText (origRef h c)
   else intText s.refs[c]! && resolvesTo h s 64 s.refs[c]! (cellOf h c).val
 
 def namesOK (s : St) : Bool := s.comps.all fun e => !e.2.1.isEmpty
